@@ -4,7 +4,7 @@ def run(ctx):
     st = [dict(variant="asan", name="c16", sources=["checks/c16_dtls.c", "harness/mx_wraps.c"], wraps=WRAPS,
                shards=vflib.NCPU, timeout=10800 if ctx.thorough else 1500)]
     rule = ("Each case = (a) one delivery schedule - one fate per datagram in global send order: deliver, drop, duplicate, late duplicate, delay k rounds, swap with next, "
-            "delayed-and-duplicated; optionally spurious timer expiries - applied to a complete in-memory DTLS handshake (full / session-id resumed / client-auth) plus a "
+            "delayed-and-duplicated; optionally spurious timer expiries - applied to a complete in-memory DTLS handshake (full / session-id resumed / client-auth / full with RFC 5077 ticket issued / resumed by ticket) plus a "
             "bidirectional data exchange, driven with the reference applications' discipline in logical rounds: all 2^m drop patterns over the first m datagrams, every single "
             "duplicate/swap/delay position, seeded random schedules, every single spurious-timeout point; or (b) one replay case on a fork()ed clone of an established session "
             "(four establishment variants): each captured record / multi-record datagram (epoch 0 handshake, Finished, application data, superseded-epoch Finished) replayed at "
